@@ -122,15 +122,16 @@ theorem signalled_blk (t : Tree) (b : Nat) (d : Ann) (h : signalled t b = some d
 
 theorem importKids_blocks (t : Tree) (isD : IsD) (pc : Ann) : ∀ (l l' : List Node),
     importKids t isD pc l = .ok (some l') → ∀ x ∈ blocksF l', x = pc.blk ∨ x ∈ blocksF l
-  | [], _, h => by rw [importKids] at h; simp at h
+  | [], _, h => by rw [importKids_nil] at h; simp at h
   | .mk c kids :: rest, l', h => by
-    rw [importKids] at h
+    rw [importKids_cons] at h
     intro x hx
     split at h
     · exact absurd h (by simp)
     · rename_i n' hn
       simp only [Except.ok.injEq, Option.some.injEq] at h; subst h
       -- the node took the change
+      rw [importNode_mk] at hn
       split at hn
       · exact absurd hn (by simp)
       · split at hn
